@@ -403,6 +403,9 @@ var clauseGhostRe = regexp.MustCompile(`\b(old|calls|lastarg|lastres|spawned|sen
 
 // tryReplay replays the first model of a failed obligation; it returns (confirmed, report).
 func tryReplay(e *Engine, o *Obligation) (bool, string) {
+	if os.Getenv("GOBV_NO_REPLAY") != "" {
+		return false, ""
+	}
 	var v *Verdict
 	for i := range o.Verdicts {
 		if o.Verdicts[i].Result == "sat" && o.Verdicts[i].Q != nil && !o.Verdicts[i].Q.Cover && o.Verdicts[i].Q.Text != "" {
